@@ -1172,6 +1172,8 @@ class Lexer:
         comment_depth = 1
 
         while True:
+            # Lines of a comment can be indented, like any other line statement.
+            self.accept(self.RE_LINE_SPACE)
             if match := self.RE_TAG_NAME.match(self.source, self.pos):
                 tag_name = match.group()
                 self.pos += match.end() - match.start()
@@ -1203,6 +1205,10 @@ class Lexer:
             elif match := self.RE_LINE_COMMENT.match(self.source, self.pos):
                 self.pos += match.end() - match.start()
                 self.accept(self.RE_LINE_TERM)
+
+            elif self.accept(self.RE_REST_OF_LINE) and self.accept(self.RE_LINE_TERM):
+                # A line of comment text that does not start with a word.
+                continue
 
             else:
                 self.error("unclosed comment block detected")
